@@ -519,6 +519,59 @@ def nt(case):
     return False
 
 
+def check_other_process(case):
+    """cells built and pickled in ANOTHER interpreter process (its own PYTHONHASHSEED, so str/bytes hash differently there), loaded
+    here: however a cell was obtained, its hash and depth are the standard ones and it equals / collides with the cells of the same
+    hash built here. Pickling itself is not promised: a child or a load that fails is not judged."""
+    import json
+    import pickle
+    import subprocess
+    import sys
+    from harness.core import REPO, VERIF
+    cells = dag.build_ref(case['spec'])
+    prog = ('import sys, json, pickle; sys.path[:0] = [%r, %r]; from harness.gen import dag; '
+            'cells = dag.build_ref(json.loads(sys.stdin.read())); lib = dag.lib_from_ref(cells, %r); '
+            'sys.stdout.write(pickle.dumps(lib, protocol=%d).hex())' % (REPO, VERIF, case['route'], case['proto']))
+    import os
+    env = dict(os.environ, PYTHONHASHSEED=str(case['hashseed']))
+    try:
+        p = subprocess.run([sys.executable] + (['-O'] if sys.flags.optimize else []) + ['-c', prog], input=json.dumps(case['spec']),
+                           capture_output=True, text=True, timeout=120, env=env)
+        loaded = pickle.loads(bytes.fromhex(p.stdout.strip()))
+    except Exception:
+        return None
+    ok, lib = call(dag.lib_from_ref, cells, 'builder')
+    if not ok or not isinstance(loaded, list) or len(loaded) != len(lib):
+        return None
+    for r, l, fresh in zip(cells, loaded, lib):
+        f = node_problem(r, l, 'unpickled-from-another-process')
+        if f:
+            return f
+        ok, rel = call(lambda: (l == fresh, fresh == l, hash(l) == hash(fresh), {l: 1}.get(fresh), {fresh: 1}.get(l), len({l, fresh}),
+                                l.copy() == fresh, hash(l.copy()) == hash(fresh)))
+        if not ok:
+            return Fail('equality/raises/unpickled-from-another-process', repr(rel))
+        if rel != (True, True, True, 1, 1, 1, True, True):
+            return Fail('equality/unpickled-cell-does-not-collide-with-an-equal-cell-built-here',
+                        f'(==, ==, hash equal, dict lookups, set size, copy ==, copy hash) = {rel} for a cell pickled under PYTHONHASHSEED={case["hashseed"]}')
+    return None
+
+
+def enum_other_process(tier):
+    spec = [{'k': 'o', 'b': [13, 2, 1], 'r': []}, {'k': 'o', 'b': [64, 2, 2], 'r': [0]}, {'k': 'o', 'b': [0, 0, 0], 'r': [0, 1, 1]},
+            {'k': 'o', 'b': [1023, 2, 3], 'r': [2, 1, 0, 2]}]
+    for hs in (1, 2, 12345):
+        for route, proto in (('builder', 2), ('tvm', pickle_default()), ('plain', 0)):
+            if tier == 'quick' and (hs, route) not in ((1, 'builder'), (2, 'tvm'), (12345, 'plain'), (2, 'builder')):
+                continue
+            yield {'spec': spec, 'hashseed': hs, 'route': route, 'proto': proto}
+
+
+def pickle_default():
+    import pickle
+    return pickle.DEFAULT_PROTOCOL
+
+
 SUBCHECKS = [
     Sub('all-lengths-x-fills-x-refs', check, enum=enum_all_lengths, classify=classify, nontrivial=nt, shards=(16, 16),
         exhaustive=True, note='15 360 cells: every bit length 0..1023 x 3 fills x 0..4 refs'),
@@ -537,6 +590,9 @@ SUBCHECKS = [
     Sub('equality-across-levels', check_eq_levels, strategy=strat_eq_levels, n=(600, 10000), shards=(4, 16),
         classify=lambda c: ['nodes=%d' % len(c['spec'])], nontrivial=lambda c: True,
         note='a DAG, the pruned branch of one of its nodes and the clones of that node\'s ancestors over the pruned branch'),
+    Sub('pickled-in-another-process', check_other_process, enum=enum_other_process, shards=(4, 8), case_cpu_s=120,
+        classify=lambda c: ['hashseed=%s' % c['hashseed'], 'route=' + c['route']], nontrivial=lambda c: True,
+        note='cells pickled by a child interpreter with another PYTHONHASHSEED and loaded here'),
     Sub('plain-bitarray-route', check, strategy=strat_plain, classify=classify, nontrivial=nt, n=(600, 10000), shards=(4, 16)),
 ]
 
